@@ -39,6 +39,7 @@ type Program struct {
 	Frames    []*FrameSpec
 	Copies    []*CopySpec
 	Lanes     []*LaneSpec
+	Readonly  []*ReadonlySpec
 	Owned     map[string][]string // pkgpath.Type -> owned receiver fields
 	RepoDir   string
 }
@@ -236,6 +237,7 @@ func (p *Program) parseSpecFuncs(fset *token.FileSet, f *ast.File, pkgPath strin
 			where = append(where, "")
 		}
 		p.Lanes = append(p.Lanes, parseLaneBlocks(pkgPath, lines, where)...)
+		p.Readonly = append(p.Readonly, parseReadonlyBlocks(pkgPath, lines, where)...)
 	}
 	for _, cg := range f.Comments {
 		for _, c := range cg.List {
